@@ -1,3 +1,4 @@
+\* X02 non-vacuity: deviation "no-recheck" (cancel ignores err under the lock) must violate ClosedOnce
 SPECIFICATION Spec
 CONSTANTS
   NP = 2
